@@ -125,6 +125,7 @@ func FuzzC18(f *testing.F) { f.Fuzz(rapid.MakeFuzz(propC18)) }
 func propC18(t *rapid.T) {
 	cfg := foreignCfg{fixtures: fixturesFromEnv(c18Fixtures), maxRecs: envInt("VERIF_MAXRECS", 50), gen: vt.DefaultGen, plain: true}
 	cfg.gen.NullPct = 20
+	cfg.gen.LongStr = 20000 // page headers (min/max statistics) beyond 16 KiB now and then
 	{
 		c := &ForeignCase{Fixture: rapid.SampledFrom(cfg.fixtures).Draw(t, "fixture")}
 		f := fx.Get(c.Fixture)
